@@ -14,7 +14,7 @@ CHECKS = {
    note="Trusted: TLC, synctest; per-priority order is observed at a single reader.",
    technique="TLA+ spec + TLC invariants; gated replay; TLC monitor on recorded traces"),
  "C05": dict(engine="priority-engine", cat="model_checking", design="§5 C05, §4.2",
-   text="Saturated configurations of the specification (infinite supply): TLC enumerates every release order and grouping and checks the share invariants; every cover path is replayed with inputs topped up before each scheduler step and stalled; Mon_Prio decides per-priority in-flight <= share and exact shares at the stall point. v1: gated saturated recorder (inputs filled before New and topped up before every scheduler step, gated stall), traces validated against PrioV1, shares from the real v1 divider.",
+   text="Saturated configurations of the specification (infinite supply): TLC enumerates every release order and grouping and checks the share invariants; every cover path is replayed with inputs topped up before each scheduler step and stalled; Mon_Prio decides per-priority in-flight <= share and exact shares at the stall point. v1: gated saturated recorder (inputs filled before New and topped up before every scheduler step, gated stall), traces validated against PrioV1, shares from the real v1 divider. Apalache: ShareInd.tla proves out[p] <= strategic[p] inductive for every HandlersQuantity and every strategic division (3 priorities; twins must fail).",
    note="Trusted: TLC, synctest; share = real divider(all priorities, H). Bounded configurations.",
    technique="TLA+ saturated spec + TLC; gated replay with stall continuation; TLC monitor"),
  "C06": dict(engine="priority-engine", cat="model_checking", design="§5 C06, §4.2",
